@@ -37,9 +37,9 @@ PLAN_FILTER = {
                                    "waitjob", "kill-restart", "rerun")),
     "C05": lambda n: n.startswith(("dup", "resubmit", "rerun", "kill", "stop", "chain2-direct")),
     "C06": lambda n: True,
-    "C07": lambda n: "fail" in n or n.startswith(("late", "diamond", "fork", "chain3", "resubmit", "rerun-failed", "oom", "kill-restart-oom")),
-    "C08": lambda n: n.startswith(("tok", "kill-restart-tok")),
-    "C09": lambda n: n.startswith(("tok", "kill-restart-tok")),
+    "C07": lambda n: "fail" in n or n.startswith(("late", "diamond", "fork", "chain3", "resubmit", "rerun-failed", "oom", "kill-restart-oom", "startfail")),
+    "C08": lambda n: n.startswith(("tok", "kill-restart-tok", "startfail-tok")),
+    "C09": lambda n: n.startswith(("tok", "kill-restart-tok", "startfail-tok")),
     "C11": lambda n: n.startswith(("rerun", "kill", "stop")),
 }
 TINY = {
